@@ -34,6 +34,9 @@ GATED = {"exceptions": "exception", "importants": "important", "csp": "csp",
 def check(run):
     for cfg in run.cfgs("A", "B"):
         F = run.facts(cfg)
+        from analysis.guards import rule_visits_all as _rva
+        run.guard("C07.6.every-tagged-rule", cfg, lambda: _rva(run, "C07.6.every-tagged-rule", F, cfg, ['blocker::Blocker::tags_with_set'],
+                  'The active list is rebuilt from ALL tagged rules whose tag is enabled', minimum=2))
         run.guard("C07.1.tag-gate", cfg, lambda: rule_tag_gate(run, F, cfg))
         run.guard("C07.2.gate-shape", cfg, lambda: rule_gate_shape(run, F, cfg))
         run.guard("C07.3.set-algebra", cfg, lambda: rule_set_algebra(run, F, cfg))
@@ -50,6 +53,9 @@ def check(run):
         run.guard("C07.via.C03.1.option-chain", cfg, lambda: _C03.rule_payloads(b4, F, cfg))
         b5 = run.borrow("C01", why="rules that differ only in their tag are different rules (not de-duplicated)")
         run.guard("C07.via.C01.7.rule-identity", cfg, lambda: _C01.rule_identity(b5, F, cfg))
+        from . import C06 as _C06c
+        bc = run.borrow("C06", only=r"tags_with_set|key-is-rule-address|evictors", why="every tag switch re-allocates the active tagged rules: a regex cached under a freed address would be used for whichever rule lands there")
+        run.guard("C07.via.C06.3.cache-key-validity", cfg, lambda: _C06c.rule_cache_key(bc, F, cfg))
 
 
 def probes(F, run=None):
